@@ -170,6 +170,12 @@ fn parse_report(f: &[&str]) -> Result<Rep, String> {
     let ts_text = String::from_utf8(parse_bytes_field(next("ts")?)).map_err(|e| e.to_string())?;
     let timestamp: DateTime<FixedOffset> =
         DateTime::parse_from_str(&ts_text, fclones::verif_api::TIMESTAMP_FMT).map_err(|e| format!("bad ts: {e}"))?;
+    // the moment a report is written has a sub-millisecond part that the text format does not show: HARNESS_TS_SUBMS_NANOS
+    // (0..999999) is added to every header time stamp before it goes to the writer
+    let timestamp = match std::env::var("HARNESS_TS_SUBMS_NANOS").ok().and_then(|v| v.parse::<i64>().ok()) {
+        Some(n) => timestamp + chrono::Duration::nanoseconds(n),
+        None => timestamp,
+    };
     let base_dir = path_of(&parse_bytes_field(next("base dir")?));
     let c = next("c<k>")?;
     let k: usize = c[1..].parse().map_err(|_| "bad c<k>".to_string())?;
